@@ -1,4 +1,5 @@
 import PyecoreModel.Model.Paths
+import PyecoreModel.Model.HrefText
 /-! Line protocol for the path algebra (C14): `relpath <target> <start>`, `joinnorm <start> <rel>`; paths are separated by slashes. -/
 namespace Paths.Proto
 open Paths
@@ -8,6 +9,10 @@ def fmtAbs (p : Path) : String := "/" ++ "/".intercalate p
 def fmtRel (p : Path) : String := "/".intercalate p
 
 def step (u : Unit) (line : String) : Unit × String :=
+  -- `hrefnorm <text>`: the text is everything after the first blank, blanks included
+  if line.startsWith "hrefnorm " then
+    (u, String.ofList (HrefText.normalize ((line.drop 9).toString.toList.filter (· ≠ '\n'))))
+  else
   let ws := (line.splitOn " ").filter (· ≠ "")
   (u, match ws with
   | ["relpath", t, s] => fmtRel (relpath (parseP t) (parseP s))
